@@ -25,6 +25,13 @@ pub enum Shift {
     IncludeHeader { nested: bool },
     IncludeAsm,
     Decl,
+    /// a backslash-newline whose continuation line is blank: 0 = at the end of a `//` comment,
+    /// 1 = at the end of a `#define`, 2 = inside a declaration
+    SpliceIntoBlank(u8),
+    /// an included file (C header or assembler) whose last line has no end-of-line character
+    IncludeNoNewline { asm: bool },
+    /// n character constants made of a multi-byte character (they reach the compiler as they are)
+    NonAscii(u8),
 }
 
 #[derive(Debug, Clone, Copy, Serialize, Deserialize, PartialEq, Eq, Hash, PartialOrd, Ord)]
@@ -328,6 +335,51 @@ fn emit_shift(w: &mut Writer, s: &Shift, n: &mut u32, files: &mut Vec<(String, S
         Shift::Decl => {
             w.put(&decl(k));
         }
+        Shift::IncludeNoNewline { asm } => {
+            if in_body {
+                w.put("  uc3 = 5;");
+                return;
+            }
+            if *asm {
+                let name = format!("tail{}.inc", k);
+                files.push((name.clone(), format!("; assembler\nasmtail{}\n\tNOP\n\tRTS", k)));
+                w.put(&format!("#include \"{}\"", name));
+            } else {
+                let name = format!("tail{}.h", k);
+                files.push((name.clone(), format!("// header {}\nchar ht{};\nchar hu{};", name, k, k)));
+                w.put(&format!("#include \"{}\"", name));
+            }
+        }
+        Shift::NonAscii(n) => {
+            for i in 0..*n {
+                if in_body {
+                    w.put("  uc2 = '\u{e9}';");
+                } else {
+                    w.put(&format!("const char na{}_{}_{} = '\u{e9}';", fname.replace('.', "_"), k, i));
+                }
+            }
+        }
+        Shift::SpliceIntoBlank(kind) => match kind {
+            0 => {
+                w.put("// the sprites are in C:\\GAME\\SPRITES\\");
+                w.put("");
+            }
+            1 => {
+                w.put(&format!("#define SB{}_{} 1 \\", fname.replace('.', "_"), k));
+                w.put("");
+            }
+            _ => {
+                if in_body {
+                    w.put("  uc2 = 5 \\");
+                    w.put("");
+                    w.put("  ;");
+                } else {
+                    w.put(&format!("char sb{}_{} \\", fname.replace('.', "_"), k));
+                    w.put("");
+                    w.put(";");
+                }
+            }
+        },
     }
 }
 
@@ -454,7 +506,7 @@ pub fn build(case: &Case) -> Built {
 }
 
 fn gen_shift(g: &mut G) -> Shift {
-    match g.below(12) {
+    match g.below(15) {
         0 => Shift::Blank(1 + g.below(3) as u8),
         1 => Shift::LineComment,
         2 | 3 => Shift::BlockComment { lines: 1 + g.below(5) as u8, code_before: g.chance(1, 2), code_after: g.chance(1, 2) },
@@ -464,6 +516,9 @@ fn gen_shift(g: &mut G) -> Shift {
         8 => Shift::MacroUse,
         9 => Shift::IncludeHeader { nested: g.chance(1, 3) },
         10 => Shift::IncludeAsm,
+        11 => Shift::SpliceIntoBlank(g.below(3) as u8),
+        12 => Shift::IncludeNoNewline { asm: g.chance(1, 2) },
+        13 => Shift::NonAscii(1 + g.below(6) as u8),
         _ => Shift::Decl,
     }
 }
